@@ -44,10 +44,13 @@ pub fn unsupported_%d() {
                    "bounds": "unsupported number %d through the public path => MsgNotSupported{%d}" % (n, n)})
     for l in (0, 1):
         hs.append({"name": "c14::empty_%d" % l, "group": "stub", "tier": "quick", "bounds": "frame with L = %d inside a 12-byte buffer (arbitrary payload/bytes after the frame) => Empty" % l})
+    # the message-number rule for every declared length (shared with C03/C13)
+    hs.append({"name": "c03::long", "group": "c03stub", "tier": "quick", "bounds": "message_number() is Some(first 12 payload bits) iff L >= 2, for every L 0..=1023 (CRC stubbed)"})
     gen.write_gen("c14_list.rs", "\n".join(code) + "\n")
     return {
         "harnesses": hs,
-        "groups": {"stub": {"features": ["c14"], "est_gb": 7, "timeout_s": 2400, "kani_args": ["-Z", "stubbing"]}},
+        "groups": {"stub": {"features": ["c14"], "est_gb": 7, "timeout_s": 2400, "kani_args": ["-Z", "stubbing"]},
+                   "c03stub": {"features": ["c03"], "timeout_s": 900, "kani_args": ["-Z", "stubbing"]}},
         "smt": {"mode": "dispatch", "queries": [{"name": "m::dispatch::%s" % q} for q in ("from_message_frame_table", "number_table", "build_message_table", "facts")]},
         "level": "model_checking",
         "solver": "M: z3 4.8.12 + cvc5 1.0 over the switch tables read from the MIR; K: CBMC 6.11 + CaDiCaL via Kani",
